@@ -1307,9 +1307,13 @@ class Router:
                     self._ls_packet_buffers.setdefault(
                         sought_gn_addr, []).append(buffered_request)
                 return
-            # Create or fetch LocTE and set ls_pending
-            entry = self.location_table.ensure_entry(sought_gn_addr)
-            entry.ls_pending = True
+            # Create or fetch LocTE and set ls_pending. Both under the table's lock: a placeholder
+            # that is visible before it is flagged has no timestamp yet and is purged by a concurrent
+            # refresh_table(), after which the next request starts a second lookup whose buffer
+            # replaces this one.
+            with self.location_table.loc_t_lock:
+                entry = self.location_table.ensure_entry(sought_gn_addr)
+                entry.ls_pending = True
             self._ls_packet_buffers[sought_gn_addr] = (
                 [buffered_request] if buffered_request is not None else []
             )
